@@ -28,8 +28,11 @@ def _rf(s,e):
         an,ad=s.rf(e.args[0])
         # structural key: use sexpr of arg to share vars
         key=(an*ad).sexpr() if False else str(z3.simplify(an/ad)) if False else None
-        v=z3.Real('L%d'%len(s.logvars)); s.logvars[k]=v
-        s.side.append(an*ad>0)
+        skey=z3.simplify(an*z3.RealVal(1)/ad).sexpr()
+        if skey in s.logvars: v=s.logvars[skey]
+        else:
+            v=z3.Real('L%d'%len(s.logvars)); s.logvars[skey]=v
+            s.side.append(an*ad>0)
         r=(v,z3.RealVal(1)); s.memo[k]=r; return r
     return _old_rf(s,e)
 RF.__init__=_init; RF.rf=_rf
